@@ -129,7 +129,8 @@ def _cfm(spec, j):
   from metric_learn.exceptions import NonPSDError  # noqa
   rng = rng_for('c20cfm', spec['seed'], spec['i'])
   classes = ['pd', 'wide', 'lowrank', 'zero', 'near', 'near', 'indefinite',
-             'diag', 'diag-neg', 'diag-tiny', 'asym-small', 'asym-large']
+             'diag', 'diag-neg', 'diag-tiny', 'asym-small', 'asym-large',
+             'block-tiny']
   for t in range(spec['n']):
     d = int(rng.randint(1, 9))
     tol = [None, 0.0, 1e-10, 1e-3][int(rng.randint(4))]
@@ -146,6 +147,25 @@ def _cfm(spec, j):
       M = np.diag(10.0 ** rng.uniform(-2, 2, size=d))
       M[0, 0] = rng.choice([-1.0, 1.0]) * M.max() * \
           10.0 ** rng.uniform(-30, -13)
+    elif klass == 'block-tiny':
+      # structured, not diagonal: a positive definite block plus a decoupled
+      # (or only partly coupled) coordinate whose eigenvalue is a tiny number
+      # of either sign, far inside every tolerance: PSD up to rounding, with
+      # a negative *diagonal entry*
+      d = max(d, 3)
+      M = np.zeros((d, d))
+      M[:d - 1, :d - 1] = sym_matrix(rng, d - 1, 'pd', tol)
+      M[d - 1, d - 1] = rng.choice([-1.0, 1.0]) * np.abs(M).max() * \
+          10.0 ** rng.uniform(-30, -20)
+      if rng.randint(2):
+        # Givens rotation in the plane of two *small* coordinates only
+        M[d - 2, d - 2] = np.abs(M).max() * 10.0 ** rng.uniform(-30, -20)
+        M[d - 2, :d - 2] = M[:d - 2, d - 2] = 0.0
+        c_, s_ = np.cos(0.3), np.sin(0.3)
+        G = np.eye(d)
+        G[d - 2:, d - 2:] = [[c_, -s_], [s_, c_]]
+        M = G.dot(M).dot(G.T)
+        M = (M + M.T) / 2
     elif klass.startswith('asym'):
       M = sym_matrix(rng, max(d, 2), 'pd', tol)
       delta = 1e-12 if klass == 'asym-small' else 1e-3
